@@ -37,6 +37,11 @@ Definition norm2 (v : vec) : Z := dot v v.
 Definition cross (u v : vec) : vec :=
   (vy u * vz v - vz u * vy v, vz u * vx v - vx u * vz v, vx u * vy v - vy u * vx v).
 Definition vzero : vec := (0, 0, 0).
+(* component i = 0,1,2 (as in the C source: v[i]) *)
+Definition vget (v : vec) (i : nat) : Z := match i with O => vx v | S O => vy v | _ => vz v end.
+(* componentwise product and componentwise rounding (fvec4 arithmetic of the orthorhombic kernel) *)
+Definition vmul (u v : vec) : vec := (vx u * vx v, vy u * vy v, vz u * vz v).
+Definition vround (rn : Z -> Z -> Z) (u d : vec) : vec := (rn (vx u) (vx d), rn (vy u) (vy d), rn (vz u) (vz d)).
 Definition vec_eqb (u v : vec) : bool := (vx u =? vx v) && (vy u =? vy v) && (vz u =? vz v).
 
 (* a cell: the three rows of unitcell_vectors[i] *)
